@@ -180,6 +180,13 @@ class OrderedMultiDict(dict):
         self.clear()
         self.update_extend(state)
 
+    def __reduce_ex__(self, protocol):
+        # the pair list (__getstate__) is the whole state. dict's default
+        # reduction also replays the single-valued items(), and the copy
+        # module does that after __setstate__, which dropped multi-values.
+        # Protocols 0 and 1 bypass __new__ (no linked list): reduce as 2.
+        return super().__reduce_ex__(max(protocol, 2))[:3]
+
     def _clear_ll(self):
         try:
             _map = self._map
